@@ -152,7 +152,23 @@ func checkBoth(buf *[]byte, raw []byte, typ byte, meta uint16, want []byte) (str
 	if why := util.CheckCellAtEnd(raw, typ, meta, false, want); why != "" {
 		return why, nil
 	}
-	return checkAt(buf, raw, 3, typ, meta, want)
+	why, got := checkAt(buf, raw, 3, typ, meta, want)
+	if why != "" {
+		return why, got
+	}
+	// the caller owns what it got: for the all-zero cells (the values a decoder
+	// is most likely to answer from a constant) and for one cell in eight
+	zero, h := true, 0
+	for _, b := range raw {
+		zero = zero && b == 0
+		h = h*31 + int(b)
+	}
+	if zero || h&7 == 0 {
+		if w := util.CheckOwned(raw, typ, meta, false, want); w != "" {
+			return w, nil
+		}
+	}
+	return "", got
 }
 
 func checkInput(in input) string {
